@@ -54,8 +54,10 @@ def generate(seed, tier):
     obs = gen_observers(rng)
     if rng.random() < 0.7:
         obs.append({"t": "composite"})
+        if rng.random() < 0.12:
+            obs.append({"t": "composite"})  # picks up every subscribed feature observer, the first composite included
     consult = [(0.12, lambda r: ["consult", r.choice(CONSULT)])] if rng.random() < 0.4 else None
-    ops = gen_dispatch_ops(rng, n_ops(spec), p_query=0.05, p_invalid=0.04, p_reset=0.04 if rng.random() < 0.5 else 0.0,
+    ops = gen_dispatch_ops(rng, n_ops(spec), p_fork=0.03 if rng.random() < 0.3 else 0.0, p_query=0.05, p_invalid=0.04, p_reset=0.04 if rng.random() < 0.5 else 0.0,
                            episodes=2 if rng.random() < 0.15 else 1, extra=consult)
     return {"prop": PROP, "cfg": {"instance": spec, "filter": names, "filter_style": style, "observers": obs,
                                   "refused_first": rng.random() < 0.1}, "ops": ops}
